@@ -713,8 +713,13 @@ def chk_psp(rng, tier, which=None):
         return None          # a single bare Pauli word is not a linear combination (lcu.terms() undefined): not a documented input
     nc = max(1, math.ceil(math.log2(nterms))) + (1 if rng.random() < 0.2 else 0)
     control = lab[nt:nt + nc]
+    which = which or rng.choice(["PrepSelPrep", "Qubitization"])
+    cplx = which == "PrepSelPrep" and rng.random() < 0.45
+    if cplx:      # complex LCU coefficients (PrepSelPrep absorbs their phases into the unitaries)
+        coeffs = [c * complex(math.cos(a), math.sin(a)) for c, a in zip(coeffs, [rng.choice([math.pi / 2, -math.pi / 2, rng.uniform(-3, 3)]) for _ in coeffs])]
+        Hm = sum(c * pauli_word_mat(w) for c, w in zip(coeffs, words))
     # operator wires: use the wires actually present in the sum (a wire carrying only identities may be absent)
-    Hop = qp.dot(coeffs, ops) if rng.random() < 0.7 else qp.Hamiltonian(coeffs, ops)
+    Hop = qp.dot(coeffs, ops) if (cplx or rng.random() < 0.7) else qp.Hamiltonian(coeffs, ops)
     tw_used = [w for w in tw if w in Hop.wires]
     if len(tw_used) != nt:
         Hm = None
@@ -727,8 +732,7 @@ def chk_psp(rng, tier, which=None):
     lam = sum(abs(c) for c in coeffs)
     dt = 2 ** nt
     wo = control + tw
-    which = which or rng.choice(["PrepSelPrep", "Qubitization"])
-    desc = {"coeffs": coeffs, "words": words, "control": control, "target": tw}
+    desc = {"coeffs": [[complex(c).real, complex(c).imag] for c in coeffs], "words": words, "control": control, "target": tw}
     if which == "PrepSelPrep":
         op = qp.PrepSelPrep(Hop, control=control)
         def f(M):
